@@ -85,7 +85,7 @@ func (d *astDumper) walk(v reflect.Value, field string) {
 			fmt.Fprintf(&d.sb, "Num{%v}", float64(v.FieldByName("Value").Int()))
 			return
 		case "FloatExp":
-			fmt.Fprintf(&d.sb, "Num{%v}", v.FieldByName("Value").Float())
+			fmt.Fprintf(&d.sb, "Num{%v}", v.FieldByName("Value").Float()+0)
 			return
 		case "Modifiers":
 			d.walkModifiers(v)
